@@ -5,6 +5,7 @@ import (
 	"context"
 	"encoding/json"
 	"fmt"
+	"hash/crc32"
 	"sort"
 	"strings"
 	"time"
@@ -26,7 +27,7 @@ type StoredRow struct {
 // World is a pair of in-memory stores plus the reference multiset of acknowledged rows.
 type World struct {
 	Data *hstore.MemData
-	Meta *hstore.MemMeta
+	Meta MetaView
 	Cfg  bs.BloomSearchEngineConfig
 	Eng  *bs.BloomSearchEngine
 	Rows []StoredRow
@@ -44,8 +45,71 @@ func quietConfig() bs.BloomSearchEngineConfig {
 	return c
 }
 
+// MetaView is a MetaStore the harness can also inspect.
+type MetaView interface {
+	bs.MetaStore
+	Pointers() []string
+	Metadata(ptr string) (bs.FileMetadata, bool)
+}
+
+// shippedMeta is the library's own MemoryMetaStore, inspected through its public iterator
+// (a nil prefilter yields everything).
+type shippedMeta struct{ *bs.MemoryMetaStore }
+
+func (s shippedMeta) all() map[string]bs.FileMetadata {
+	m := map[string]bs.FileMetadata{}
+	for f, err := range s.GetMaybeFilesForQuery(context.Background(), nil) {
+		if err == nil {
+			m[string(f.PointerBytes)] = f.Metadata
+		}
+	}
+	return m
+}
+
+func (s shippedMeta) Pointers() []string {
+	var out []string
+	for p := range s.all() {
+		out = append(out, p)
+	}
+	// MemData names files f1, f2, ...: creation order
+	sort.Slice(out, func(i, j int) bool {
+		if len(out[i]) != len(out[j]) {
+			return len(out[i]) < len(out[j])
+		}
+		return out[i] < out[j]
+	})
+	return out
+}
+
+func (s shippedMeta) Metadata(ptr string) (bs.FileMetadata, bool) {
+	md, ok := s.all()[ptr]
+	return md, ok
+}
+
 func newWorld(cfg bs.BloomSearchEngineConfig, tok refmodel.Tokenizer) (*World, error) {
-	w := &World{Data: hstore.NewMemData(), Meta: hstore.NewMemMeta(), Cfg: cfg, Tok: tok, Part: cfg.PartitionFunc}
+	return newWorldMeta(cfg, tok, hstore.NewMemMeta())
+}
+
+// newWorldShipped is newWorld over the library's MemoryMetaStore.
+func newWorldShipped(cfg bs.BloomSearchEngineConfig, tok refmodel.Tokenizer) (*World, error) {
+	return newWorldMeta(cfg, tok, shippedMeta{bs.NewMemoryMetaStore()})
+}
+
+// storedState is a digest of everything the stores hold (queries must leave it unchanged).
+func (w *World) storedState() string {
+	var sb strings.Builder
+	for _, p := range w.Meta.Pointers() {
+		md, _ := w.Meta.Metadata(p)
+		md.BloomFilters = bs.BloomFilters{}
+		b, _ := json.Marshal(md)
+		data, _ := w.Data.Bytes(p)
+		fmt.Fprintf(&sb, "%s %s %d:%x\n", p, b, len(data), crc32.ChecksumIEEE(data))
+	}
+	return sb.String()
+}
+
+func newWorldMeta(cfg bs.BloomSearchEngineConfig, tok refmodel.Tokenizer, meta MetaView) (*World, error) {
+	w := &World{Data: hstore.NewMemData(), Meta: meta, Cfg: cfg, Tok: tok, Part: cfg.PartitionFunc}
 	if tok == nil {
 		w.Tok = refmodel.DefaultTokenizer
 	}
